@@ -21,7 +21,9 @@
 (*   rules {<<s,d,p>>}    routing whitelist ("*" = wildcard)                *)
 (* History variables record what every chain ever committed (ever), what    *)
 (* was sent / accepted (sent, delivered, acked) and which application       *)
-(* callbacks ran (cb1 = at least once, cb2 = more than once).               *)
+(* callbacks ran (cb1 = at least once, cb2 = more than once), and - for a   *)
+(* client that expired - what it knew of its counterparty at that moment    *)
+(* (frozen: an expired client can no longer be updated).                    *)
 (***************************************************************************)
 EXTENDS Naturals, FiniteSets, Sequences, TLC
 
@@ -30,6 +32,7 @@ CONSTANTS Chains,           \* chain names (strings)
           Ports,            \* port names a message may mention
           BoundPorts,       \* ports that have a route on every chain
           Data,             \* payload tags
+          EmptyData,        \* the empty payload ("" in the core family; payloads of the other families are records)
           DecodableData,    \* payloads the NFT / MT applications can decode (as a packet with blank fields)
           AckTags,          \* acknowledgement tags an adversary may claim
           MaxSeq,           \* bound on sequences (model checking only)
@@ -38,10 +41,10 @@ CONSTANTS Chains,           \* chain names (strings)
           F_STATUS,         \* TRUE: packet keeper refuses proofs through expired clients (intended); FALSE: as coded
           F_RELAY_DST_ERRACK\* TRUE: relay chain records an error ack when it does not know the destination (intended)
 
-VARIABLES cs, ever, sent, delivered, acked, cb1, cb2, evlog
+VARIABLES cs, ever, sent, delivered, acked, cb1, cb2, evlog, frozen
 
-vars  == <<cs, ever, sent, delivered, acked, cb1, cb2, evlog>>
-hvars == <<ever, sent, delivered, acked, cb1, cb2>>
+vars  == <<cs, ever, sent, delivered, acked, cb1, cb2, evlog, frozen>>
+hvars == <<ever, sent, delivered, acked, cb1, cb2, frozen>>
 
 EmptyChain(cl) == [ns |-> {}, cm |-> {}, rc |-> {}, ak |-> {}, cp |-> {}, ma |-> {}, cl |-> cl, ex |-> {}, rules |-> {}]
 
@@ -83,11 +86,16 @@ FactsNow(x, kind) == IF kind = "commit" THEN cs[x].cm ELSE IF kind = "ack" THEN 
                      ELSE {<<y[1], y[2], 0, y[3]>> : y \in cs[x].cp}
 FactsEver(x, kind) == IF kind = "commit" THEN ever[x].cm ELSE IF kind = "ack" THEN ever[x].ak ELSE ever[x].cp
 
-ProofOK(from, kind, s, d, n, v, pf) ==
+\* facts of chain x that chain c's client of x can verify: everything x ever committed, or - once that client
+\* has expired and cannot be updated any more - what x had committed until then
+Known(c, x, kind) == IF x \in cs[c].ex THEN {t[3] : t \in {u \in frozen[c] : u[1] = x /\ u[2] = kind}}
+                     ELSE FactsEver(x, kind)
+
+ProofOK(c, from, kind, s, d, n, v, pf) ==
   /\ from \in Chains
-  /\ pf.chain = from /\ pf.kind = kind /\ pf.s = s /\ pf.d = d /\ pf.n = n
-  /\ \/ pf.mode = "best"   /\ <<s, d, n, v>> \in FactsEver(from, kind)
-     \/ pf.mode = "latest" /\ <<s, d, n, v>> \in FactsNow(from, kind)
+  /\ pf.chain = from /\ pf.kind = kind /\ pf.s = s /\ pf.d = d /\ (kind = "clean" \/ pf.n = n)   \* a clean key has no sequence
+  /\ \/ pf.mode = "best"   /\ <<s, d, n, v>> \in Known(c, from, kind)
+     \/ pf.mode = "latest" /\ <<s, d, n, v>> \in FactsNow(from, kind) /\ <<s, d, n, v>> \in Known(c, from, kind)
 
 -------------------------------------------------------------------------------
 (* Application oracle of the core family.  The mock port acknowledges everything with "mock".  The  *)
@@ -104,7 +112,7 @@ Fail(r)          == [ok |-> FALSE, r |-> r, calls |-> {}, wack |-> {}]
 Ok(r, calls, wa) == [ok |-> TRUE,  r |-> r, calls |-> calls, wack |-> wa]
 
 ValidPkt(c, r, p) ==
-  /\ p.seq >= 1 /\ p.data # ""
+  /\ p.seq >= 1 /\ p.data # EmptyData
   /\ (p.relay = c \/ p.dst = c \/ p.src = c)
   /\ p.seq > CpR(r, p.src, p.dst)
 
@@ -120,7 +128,7 @@ WAck(c, r, p, a) ==
 \* SendPacket (04-packet/keeper/packet.go) reached from an application on chain c
 SendRes(c, r, p) ==
   LET target == IF p.relay # "" THEN p.relay ELSE p.dst IN
-  IF /\ p.seq >= 1 /\ p.data # ""
+  IF /\ p.seq >= 1 /\ p.data # EmptyData
      /\ p.src = c
      /\ target \in r.cl
      /\ p.seq = NsR(r, p.src, p.dst)
@@ -129,7 +137,7 @@ SendRes(c, r, p) ==
   ELSE Fail(r)
 
 \* MsgRecvPacket (msg_server.go RecvPacket + keeper RecvPacket + WriteAcknowledgement)
-RecvRes(c, r, p, pf) ==
+RecvResA(c, r, p, pf, appAns) ==   \* appAns: the application's answer ("FAIL" or the acknowledgement tag)
   LET from    == IF p.dst = c /\ p.relay # "" THEN p.relay ELSE p.src
       isRelay == p.relay = c
       isDst   == p.dst = c
@@ -138,7 +146,7 @@ RecvRes(c, r, p, pf) ==
       call    == {<<c, "recv", p.src, p.dst, p.seq>>}
   IN
   IF ~ValidPkt(c, r, p) \/ <<p.src, p.dst, p.seq>> \in r.rc \/ ~Usable(r, from)
-     \/ ~ProofOK(from, "commit", p.src, p.dst, p.seq, CVal(p), pf)
+     \/ ~ProofOK(c, from, "commit", p.src, p.dst, p.seq, CVal(p), pf)
   THEN Fail(r)
   ELSE IF isRelay /\ ~AuthR(r, p.src, p.dst, p.port)
   THEN LET w == WAck(c, r1, p, "unauth") IN
@@ -149,13 +157,14 @@ RecvRes(c, r, p, pf) ==
             IF w.ok THEN Ok(w.r, {}, {<<p.src, p.dst, p.seq, "nodst">>}) ELSE Fail(r)
        ELSE Fail(r)
   ELSE IF isDst
-  THEN IF p.port \notin BoundPorts \/ AppRecv(p) = "FAIL" THEN Fail(r)
-       ELSE LET w == WAck(c, r2, p, AppRecv(p)) IN
-            IF w.ok THEN Ok(w.r, call, {<<p.src, p.dst, p.seq, AppRecv(p)>>}) ELSE Fail(r)
+  THEN IF p.port \notin BoundPorts \/ appAns = "FAIL" THEN Fail(r)
+       ELSE LET w == WAck(c, r2, p, appAns) IN
+            IF w.ok THEN Ok(w.r, call, {<<p.src, p.dst, p.seq, appAns>>}) ELSE Fail(r)
   ELSE Ok(r2, {}, {})
+RecvRes(c, r, p, pf) == RecvResA(c, r, p, pf, AppRecv(p))
 
 \* MsgAcknowledgement (msg_server.go Acknowledgement + keeper AcknowledgePacket)
-AckRes(c, r, p, a, pf) ==
+AckResA(c, r, p, a, pf, appAns) ==   \* appAns: "FAIL" if the application's acknowledgement callback returns an error
   LET from    == IF p.src = c /\ p.relay # "" THEN p.relay ELSE p.dst
       isRelay == p.relay = c
       r1      == [r EXCEPT !.cm = Del4(@, p.src, p.dst, p.seq),
@@ -168,11 +177,12 @@ AckRes(c, r, p, a, pf) ==
      \/ ~ValidPkt(c, r, p)
      \/ <<p.src, p.dst, p.seq, CVal(p)>> \notin r.cm
      \/ ~Usable(r, from)
-     \/ ~ProofOK(from, "ack", p.src, p.dst, p.seq, a, pf)
+     \/ ~ProofOK(c, from, "ack", p.src, p.dst, p.seq, a, pf)
      \/ (isRelay /\ p.src \notin r.cl)
-     \/ (docb /\ AppAck(p, a) = "FAIL")
+     \/ (docb /\ appAns = "FAIL")
   THEN Fail(r)
   ELSE Ok(r2, call, IF isRelay THEN {<<p.src, p.dst, p.seq, a>>} ELSE {})
+AckRes(c, r, p, a, pf) == AckResA(c, r, p, a, pf, AppAck(p, a))
 
 \* ValidateCleanPacket (keeper.go) for source s on record r
 CleanValid(r, s, d, N) ==
@@ -195,7 +205,7 @@ RecvCleanRes(c, r, q, pf) ==
   IN
   IF /\ q.seq >= 1 /\ CleanValid(r, q.src, q.dst, q.seq)
      /\ Usable(r, from)
-     /\ ProofOK(from, "clean", q.src, q.dst, 0, q.seq, pf)
+     /\ ProofOK(c, from, "clean", q.src, q.dst, 0, q.seq, pf)
      /\ (q.relay = c => q.dst \in r.cl)
   THEN Ok([r EXCEPT !.ak = {x \in @ : ~gone(x)}, !.rc = {x \in @ : ~gone(x)},
                     !.cp = Set3(@, q.src, q.dst, q.seq)], {}, {})
@@ -219,6 +229,10 @@ StepRes(e) ==
     [] e.act = "RecvClean" -> RecvCleanRes(c, r, e.cp, e.proof)
     [] e.act = "SetRules"  -> SetRulesRes(c, r, e.rules)
     [] e.act = "Expire"    -> ExpireRes(c, r, e.x)
+    [] e.act \in {"ExportImport", "AdvanceTo"} -> Ok(r, {}, {})     \* genesis round trip / passing blocks: no change
+
+RecvFrom(c, p) == IF p.dst = c /\ p.relay # "" THEN p.relay ELSE p.src
+AckFrom(c, p)  == IF p.src = c /\ p.relay # "" THEN p.relay ELSE p.dst
 
 EverOf(x, old, new) == [cm |-> old.cm \cup new.cm, ak |-> old.ak \cup new.ak,
                         cp |-> old.cp \cup {<<y[1], y[2], 0, y[3]>> : y \in new.cp}]
@@ -227,10 +241,17 @@ EverOf(x, old, new) == [cm |-> old.cm \cup new.cm, ak |-> old.ak \cup new.ak,
 HistNext(e, res) ==
   /\ ever' = [x \in Chains |-> EverOf(x, ever[x], cs'[x])]
   /\ sent' = IF e.act = "Send" /\ res.ok THEN sent \cup {e.pkt} ELSE sent
-  /\ delivered' = IF e.act = "Recv" /\ res.ok THEN delivered \cup {[c |-> e.c, pkt |-> e.pkt]} ELSE delivered
-  /\ acked' = IF e.act = "Ack" /\ res.ok THEN acked \cup {[c |-> e.c, pkt |-> e.pkt, ack |-> e.ack]} ELSE acked
+  /\ delivered' = IF e.act = "Recv" /\ res.ok
+                   THEN delivered \cup {[c |-> e.c, pkt |-> e.pkt, exp |-> RecvFrom(e.c, e.pkt) \in cs[e.c].ex]} ELSE delivered
+  /\ acked' = IF e.act = "Ack" /\ res.ok
+               THEN acked \cup {[c |-> e.c, pkt |-> e.pkt, ack |-> e.ack, exp |-> AckFrom(e.c, e.pkt) \in cs[e.c].ex]} ELSE acked
   /\ cb1' = cb1 \cup res.calls
   /\ cb2' = cb2 \cup (cb1 \cap res.calls)
+  /\ frozen' = IF e.act = "Expire" /\ res.ok /\ e.x \notin cs[e.c].ex
+                THEN [frozen EXCEPT ![e.c] = @ \cup {<<e.x, "commit", t>> : t \in ever[e.x].cm}
+                                                 \cup {<<e.x, "ack", t>> : t \in ever[e.x].ak}
+                                                 \cup {<<e.x, "clean", t>> : t \in ever[e.x].cp}]
+                ELSE frozen
 
 Do(e) ==
   LET res == StepRes(e) IN
@@ -241,9 +262,6 @@ Do(e) ==
 (* Properties (state invariants over the history variables, and action properties).                *)
 
 SameKeyData(p, q) == p.src = q.src /\ p.dst = q.dst /\ p.seq = q.seq /\ p.data = q.data
-RecvFrom(c, p) == IF p.dst = c /\ p.relay # "" THEN p.relay ELSE p.src
-AckFrom(c, p)  == IF p.src = c /\ p.relay # "" THEN p.relay ELSE p.dst
-
 \* C01: whatever a chain accepted was sent with the same source, destination, sequence and data,
 \* and the chain it was proven from had committed it.
 Inv_C01 == \A x \in delivered :
@@ -283,5 +301,6 @@ Inv_C10 == \A c \in Chains : \A y \in cs[c].cp :
              /\ \A x \in cs[c].cm : ~(x[1] = y[1] /\ x[2] = y[2] /\ x[3] <= y[3] /\ x[1] = c)
              /\ \A x \in cs[c].rc : ~(x[1] = y[1] /\ x[2] = y[2] /\ x[3] <= y[3])
 
-\* C14 (packet part): nothing is accepted through an expired client  -- checked in the trace spec
+\* C14 (packet part): nothing is accepted through an expired client
+Inv_C14 == \A x \in delivered \cup acked : ~x.exp
 =============================================================================
